@@ -125,8 +125,24 @@ def class_expr_stream(tier, seed, builtins, log):
                 items.append(('r', a, b))
         return ('set', items)
 
+    def wide_set():
+        # ten or more ranges: the generated code tests such a set by binary search over a table instead of a guard chain; borders at the
+        # positions where code-point arithmetic is delicate (0, the surrogate gap, plane borders, char::MAX)
+        marks = sorted(set(rng.choice([0x0, 0x7F, 0x80, 0x7FF, 0x800, 0xD7FF, 0xE000, 0xFFFF, 0x10000, 0x10FFFF, 0xD7FE, 0xE001, 0x10FFFE]) if rng.random() < 0.35
+                           else rng.randint(0x100, 0x11000) for _ in range(rng.randint(22, 30))))
+        marks = [m for m in marks if not 0xD800 <= m <= 0xDFFF]
+        items = []
+        for i in range(0, len(marks) - 1, 2):
+            a, b = marks[i], marks[i + 1]
+            if a < 0xD800 <= 0xDFFF < b:
+                b = 0xD7FF
+            items.append(('r', a, b) if rng.random() < 0.8 else ('c', a))
+        return ('set', items)
+
     def leaf():
         k = rng.random()
+        if k < 0.12:
+            return wide_set()
         if k < 0.7:
             return dense_set()
         if k < 0.82:
@@ -157,12 +173,21 @@ def class_expr_stream(tier, seed, builtins, log):
         if not ivs:
             continue                    # empty class: excluded by well-formedness
         name = 'Cls%d' % len(progs)
-        d = {'name': name, 'items': [('errortype',), ('rule', 'simple', e, None), ('rule', 'simple', ('any',), None)]}
+        # the class as a whole rule (its transitions lead to an accept-only state) or under `+` (they lead to a state with transitions of its
+        # own: the generator emits different membership tests for the two)
+        e_rule = e if len(progs) % 2 == 0 else ('plus', e)
+        d = {'name': name, 'items': [('errortype',), ('rule', 'simple', e_rule, None), ('rule', 'simple', ('any',), None)]}
         if not gen_defs.well_formed(d, builtins):
             continue
-        pts = set(letters + [ord('i'), ord('`')])
-        for (a, b) in ivs[:40]:
+        pts = set(letters + [ord('i'), ord('`'), 0, 0xD7FF, 0xE000, CHAR_MAX])
+        prev_end = None
+        for (a, b) in ivs[:60]:
             pts.update([a - 1, a, a + 1, b - 1, b, b + 1])
+            if prev_end is not None:
+                pts.add((prev_end + a) // 2)        # the middle of every hole
+            prev_end = b
+        # a neighbour inside the surrogate gap stands for the nearest scalar on the other side of it
+        pts = set(0xE000 if (0xD800 <= c <= 0xDFFF and c - 1 in pts) else 0xD7FF if 0xD800 <= c <= 0xDFFF else c for c in pts)
         w = sorted(c for c in pts if 0 <= c <= CHAR_MAX and not (0xD800 <= c <= 0xDFFF))
         progs.append(d)
         cases[name] = [{'prog': name, 'id': 'w0', 'ctor': 0, 'ncalls': len(w) + 2, 'input': w, 'script': [], 'clones': []}]
@@ -660,10 +685,32 @@ def check_C12(tier, seed, res, builtins, log):
             violations.append({'definition': corpus.lexer_text(d) + ''.join('\n' + corpus.lexer_text(e) for e in extra.get(d['name'], [])),
                                'def_json': pipeline.def_to_json(d), 'input': None, 'script': None, 'site': 'expansion',
                                'what': 'well-formed definition (shape list) does not expand/compile (%s): %s' % (st['build'], st.get('detail', '')[:400])})
+    # definitions the static rules accept but outside the well-formed fragment (`$` away from the tail, rules matching the empty string):
+    # the behavioural properties do not quantify over them, C12 does — expansion must finish and the output must compile
+    # (the model's counterpart: `compileLexer_no_internal` holds for EVERY definition with non-inverted bracket ranges)
+    lrng = random.Random(seed + 1212)
+    lgen = gen_defs.Gen(lrng, builtins)
+    c_ = gen_defs.chr_
+    loose = [{'name': 'LooseF%d' % i, 'items': [('errortype',)] + its} for i, its in enumerate([
+        [gen_defs.rule('simple', ('cat', gen_defs.str_('end'), ('cat', gen_defs.EOI, ('opt', c_('\n'))))), gen_defs.rule('simple', gen_defs.ANY)],
+        [gen_defs.rule('simple', ('cat', c_('a'), ('cat', gen_defs.EOI, c_('b')))), gen_defs.rule('simple', c_('b'))],
+        [gen_defs.rule('simple', ('cat', gen_defs.str_('end'), ('cat', gen_defs.EOI, ('alt', gen_defs.EOI, c_('!')))))],
+        [('ruleset', 'Init', [gen_defs.rule('infallible', c_('x'))]), ('ruleset', 'R1', [gen_defs.rule('simple', ('cat', c_('a'), ('cat', gen_defs.EOI, c_('b')))), gen_defs.rule('simple', ('star', c_('c')))])],
+        [gen_defs.rule('simple', ('plus', ('alt', gen_defs.EOI, c_('b')))), gen_defs.rule('simple', c_('a'), ('cat', ('opt', gen_defs.EOI), c_('c')))],
+        [gen_defs.rule('simple', ('star', c_('a'))), gen_defs.rule('none', ('opt', gen_defs.str_('bc')))],
+    ])]
+    for i in range(18 if tier == 'quick' else 150):
+        loose.append(gen_defs.loose_definition(lgen, 'LooseR%d' % i))
+    lstatus, _lt, _ld = __import__('check').build_and_run_extra(loose, {})
+    for d in loose:
+        st = lstatus[d['name']]
+        if st['build'] != 'ok':
+            violations.append({'definition': corpus.lexer_text(d), 'def_json': pipeline.def_to_json(d), 'input': None, 'script': None, 'site': 'expansion',
+                               'what': 'statically acceptable definition (outside the well-formed fragment: `$` away from the tail or an empty-matching rule) does not expand/compile (%s): %s' % (st['build'], st.get('detail', '')[:400])})
     v5, n_hv = check_header_variants(log)
     violations += v5
     dbl = [pr['double'] for pr in res['programs'].values() if pr['double']]
-    cov = {'programs': n + len(shapes) + n_hv, 'evaluations': n + len(shapes) + n_hv, 'header_variants_compiled': n_hv, 'distinct_nontrivial': len(set(tuple(pr['def']) for pr in res['programs'].values())),
+    cov = {'programs': n + len(shapes) + n_hv + len(loose), 'evaluations': n + len(shapes) + n_hv + len(loose), 'header_variants_compiled': n_hv, 'accepted_but_not_well_formed_compiled': len(loose), 'distinct_nontrivial': len(set(tuple(pr['def']) for pr in res['programs'].values())),
            'double_expansions_compared': len(dbl), 'double_expansions_equal': dbl.count('same'),
            'expansion_ms_max': max(times) if times else None, 'expansion_ms_median': sorted(times)[len(times) // 2] if times else None,
            'rule': 'every corpus definition expanded by rustc under a watchdog; %d re-expanded into a second dump and compared (code text and artefacts); compile-shape list' % len(dbl),
@@ -1284,7 +1331,7 @@ def _dt_e_canonical(t):
     return True
 
 
-def defparser_stream(tier, seed, builtins, log):
+def defparser_stream(tier, seed, builtins, log, verdict_only=False):
     rng = random.Random(seed * 17 + 160)
     g = gen_defs.Gen(rng, builtins, unicode_p=0.05)
     n = 300 if tier == 'quick' else 6000
@@ -1337,6 +1384,12 @@ def defparser_stream(tier, seed, builtins, log):
         m = ' '.join(model[i].split())[len('PARSEDEF '):] if i < len(model) and model[i].startswith('PARSEDEF') else None
         verdicts[real.split()[0] if real else '?'] = verdicts.get(real.split()[0] if real else '?', 0) + 1
         text = ' '.join(_dt_render(x) for x in t)
+        if verdict_only:
+            # C17: a token sequence the definition-parser model rejects must be rejected by the real parser
+            if m is not None and m.startswith('ERR') and real.startswith('OK') and len(violations) < 4:
+                violations.append({'definition': text, 'site': 'syntax (definition)', 'input': None, 'script': None,
+                                   'what': 'malformed definition (not derivable in the grammar: the definition-parser model rejects it) is accepted by the macro parser: ' + real[:200]})
+            continue
         if exp is not None and real != ' '.join(exp.split()):
             if len(violations) < 4:
                 violations.append({'definition': text, 'site': 'definition parser', 'input': None, 'script': None,
@@ -1460,7 +1513,74 @@ def mutate_illformed(d, rng):
     out.append(('syntax_no_arrow', text.replace(' -> lv::Tok;', ' lv::Tok;', 1)))
     out.append(('syntax_bad_range', text.replace('-> lv::Tok;', "-> lv::Tok; ['a'-] = lv::Tok(99),", 1)))
     out.append(('syntax_unknown_ident', text.replace('-> lv::Tok;', '-> lv::Tok; foo Bar { }', 1)))
+    # a sigil or operator that lacks its operand, at every kind of position a regex can stand in: as a whole rule, at the start / in the middle /
+    # at the end of a concatenation, in a group, under a postfix operator, as an alternative, in a right context, in a `let` that is used,
+    # inside a rule set when there is one. `$$` needs a name, `#` `|` `-` `>` need a right operand.
+    holes = ["%s = lv::Tok(99),", "'a' %s = lv::Tok(99),", "%s 'a' = lv::Tok(99),", "'a' %s 'b' = lv::Tok(99),", "('a' | %s) = lv::Tok(99),", "'a' (%s)? = lv::Tok(99),",
+             "'a' %s? 'b' = lv::Tok(99),", "'a' > %s = lv::Tok(99),", "'a' > 'b' %s = lv::Tok(99),", "'a' %s,", "let holev = 'a' %s; $holev = lv::Tok(99),"]
+    inside = 'rule Init {' if 'rule Init {' in text else '-> lv::Tok;'
+    for sig, tag in (('$$', 'builtin_sigil_without_name'), ("'a' #", 'diff_without_operand'), ("'a' |", 'or_without_operand'), ("['a' -]", 'range_without_end')):
+        for k, h in enumerate(holes):
+            if sig != '$$' and (k % 3 != rng.randrange(3) or (sig.endswith(('#', '|')) and k in (2, 3))):
+                continue        # (holes 2 and 3 put an operand right after the sigil: `'a' | 'a'` is well-formed)
+            out.append(('syntax_%s@%d' % (tag, k), text.replace(inside, inside + ' ' + (h % sig), 1)))
     return out
+
+
+def syntax_membership_stream(tier, seed, builtins, log):
+    """token sequences outside the grammar (according to the Lean parser models) that the real parser accepts -> C17 violations"""
+    rng = random.Random(seed * 19 + 170)
+    n = 1200 if tier == 'quick' else 20000
+    alphabet = [('(',), (')',), ('[',), (']',), ('$',), ('$',), ('id', 'x'), ('c', 97), ('c', 98), ('s', [97, 98]), ('_',), ('|',), ('*',), ('+',), ('?',), ('#',), ('-',)]
+    soups = []
+    while len(soups) < n:
+        soup = [rng.choice(alphabet) for _ in range(rng.randint(1, 7))]
+        depth, ok = [], True
+        for t in soup:
+            if t[0] in '([':
+                depth.append(t[0])
+            elif t[0] in ')]':
+                if not depth or (depth[-1] == '(') != (t[0] == ')'):
+                    ok = False
+                    break
+                depth.pop()
+        if ok and not depth:
+            soups.append(soup)
+    # positions: whole rule, right context, `let` body (the parser is the same function, the caller differs)
+    frames = [('L -> u32; %s = 1,', 'rule'), ("L -> u32; 'a' > %s = 1,", 'ctx'), ("L -> u32; let y = %s; 'a' = 1,", 'let'), ('L -> u32; rule Init { %s, }', 'ruleset')]
+    lines, meta = [], []
+    for i, soup in enumerate(soups):
+        fr, where = frames[i % len(frames)] if i % 3 == 0 else frames[0]
+        lines.append('parse ' + fr % render_tokens(soup))
+        meta.append((soup, where))
+    impl, err = component_server('lexgen', lines)
+    if impl is None:
+        return [], [{'site': 'component server parse', 'what': err, 'no_failing_input': True, 'definition': None, 'input': None, 'script': None}], {}
+    model = lexmodel_lines(['PARSE ' + tokens_for_lean(soup) + ' =' for soup, _ in meta])
+    violations, unresolved = [], []
+    n_rej_both, n_acc_both = 0, 0
+    for i, (soup, where) in enumerate(meta):
+        real_ok = impl[i].startswith('parse OK')
+        m = model[i][len('PARSE '):].strip() if i < len(model) and model[i].startswith('PARSE ') else None
+        if m is None:
+            continue
+        m_ok = m.startswith('ok')
+        if real_ok and not m_ok:
+            if len(violations) < 4:
+                violations.append({'definition': lines[i][len('parse '):], 'site': 'syntax (%s position)' % where, 'input': None, 'script': None,
+                                   'what': 'malformed regex syntax `%s` (not derivable in the grammar: the parser model rejects it) is accepted by the macro parser: %s' % (render_tokens(soup), impl[i][:200])})
+        elif (not real_ok) and m_ok and where == 'rule' and len(unresolved) < 2:
+            unresolved.append({'definition': lines[i][len('parse '):], 'site': 'Parser model', 'input': None, 'script': None, 'no_failing_input': True,
+                               'what': 'correspondence no longer checks: the parser model accepts `%s`, the real parser rejects it' % tokens_for_lean(soup)})
+        elif real_ok:
+            n_acc_both += 1
+        else:
+            n_rej_both += 1
+    # whole definitions
+    dv, du, dcov = defparser_stream(tier, seed + 5, builtins, log, verdict_only=True)
+    violations += dv
+    return violations, unresolved, {'syntax_soups': len(meta), 'syntax_soups_rejected_by_both': n_rej_both, 'syntax_soups_accepted_by_both': n_acc_both,
+                                    'malformed_definitions': dcov.get('definition_parser_cases'), 'malformed_definition_verdicts': dcov.get('definition_parser_verdicts')}
 
 
 def check_C17(tier, seed, res, builtins, log):
@@ -1519,9 +1639,16 @@ def check_C17(tier, seed, res, builtins, log):
     if rc == 'timeout':
         unresolved.append({'site': 'rustc on ill-formed corpus', 'what': 'timeout', 'no_failing_input': True, 'definition': None, 'input': None, 'script': None})
     shutil.rmtree(ws, ignore_errors=True)
+    # malformed syntax, by grammar membership: token sequences the grammar of the parser model (`Model/Parser.lean`, `Model/ParserDef.lean`,
+    # round-trip theorems `parse_print`, `parseDef_printDef`) does not derive must be rejected by the real parser too — regex token soups and
+    # whole definitions with deleted / inserted / replaced / swapped tokens
+    sv, su, scov = syntax_membership_stream(tier, seed, builtins, log)
+    violations = sv + violations
+    unresolved += su
     cov = {'evaluations': len(muts), 'distinct_nontrivial': len(kinds), 'programs': len(muts), 'violation_kinds': kinds, 'rejected': len([i for i in range(len(muts)) if i in failed]),
            'rule': 'one static violation injected into a random well-formed definition (every listed kind, several positions), expanded by the real macro under rustc; distinct = kinds of violation',
            'samples': [{'kind': muts[0][0], 'definition': muts[0][1]}]}
+    cov.update(scov)
     return {'violations': violations[:8], 'unresolved': unresolved, 'coverage': cov, 'assumptions': ['syn error paths for arbitrary garbage are sampled, not modelled']}
 
 
